@@ -85,13 +85,13 @@ impl Property for C05 {
     fn cases(&self, tier: Tier) -> u64 {
         match tier {
             Tier::Quick => 40_000,
-            Tier::Thorough => 1_500_000,
+            Tier::Thorough => 8_000_000,
         }
     }
     fn min_nontrivial(&self, tier: Tier) -> u64 {
         match tier {
             Tier::Quick => 10_000,
-            Tier::Thorough => 400_000,
+            Tier::Thorough => 2_000_000,
         }
     }
     fn rule(&self) -> &'static str {
